@@ -38,7 +38,13 @@ ASSUMPTIONS = [
     "each stack talks to its own server model initialised to the same state",
 ]
 
-STACKS = ["pooled", "hash", "hash-pooled", "retry1"]
+# "aws": the ElastiCache subclass of HashClient (it re-implements the constructor), its one node learnt from a configuration endpoint
+STACKS = ["pooled", "hash", "hash-pooled", "retry1", "aws", "aws-pooled"]
+
+
+def _stacks_for(cfg):
+    # (an ElastiCache cluster advertises host|ip|port triples: no server spellings; and it is not built around a client_class here)
+    return [s_ for s_ in STACKS if not (s_.startswith("aws") and (cfg.get("server") or cfg.get("client_class")))]
 
 
 # equivalent spellings of the server in the configuration: name -> (the address the server listens on, how the client is told)
@@ -73,6 +79,11 @@ def build_kwargs(cfg, env):
         kw["socket_keepalive"] = KeepaliveOpts(*cfg["keepalive"])
     if cfg.get("tls"):
         kw["tls_context"] = env.tls()
+    if cfg.get("client_class"):
+        # the stacks are built around a Client subclass (vlib/subclasses.py); the reference is that subclass used directly
+        from vlib import subclasses
+        kw["client_class"] = subclasses.CLIENT_CLASSES[cfg["client_class"]]
+        kw["client_class_how"] = cfg.get("client_class_how", "assign")
     return kw
 
 
@@ -126,7 +137,9 @@ def run_stack(stack, cfg, state, r):
         res = env.call(ops.invoke, c, r)
     sockev = [(e[3], e[4]) for e in env.net.log if e[3] in ("socket", "setsockopt", "settimeout", "wrap", "connect")]
     # only the first connection (the one that did the work)
-    first_sock = next((e[2] for e in env.net.log if e[3] == "socket"), None)
+    # (for the ElastiCache subclass: not the discovery connection to the configuration endpoint)
+    disc = {e[2] for e in env.net.log if e[3] == "connect" and isinstance(e[4], tuple) and e[4][0] == "cfg.example.com"}
+    first_sock = next((e[2] for e in env.net.log if e[3] == "socket" and e[2] not in disc), None)
     sockev = [(e[3], e[4]) for e in env.net.log if e[2] == first_sock and e[3] in ("socket", "setsockopt", "settimeout", "wrap", "connect")]
     return res, env.server.log, env.server.errors, sockev, env
 
@@ -160,8 +173,8 @@ def run_sequence(stack, cfg, state, seq):
 def check_sequence(case):
     cfg, state, seq = case["cfg"], case["state"], case["ops"]
     base, _ = run_sequence("client", cfg, state, seq)
-    for stack in STACKS:
-        if stack.startswith("hash") and any(r["op"] in ("getitem", "setitem", "delitem") for r in seq):
+    for stack in _stacks_for(cfg):
+        if stack.startswith(("hash", "aws")) and any(r["op"] in ("getitem", "setitem", "delitem") for r in seq):
             continue
         got, env = run_sequence(stack, cfg, state, seq)
         for i, ((res, log), (bres, blog)) in enumerate(zip(got, base)):
@@ -265,7 +278,7 @@ def lifecycle_cases(tier, seed):
 def check_lifecycle(case):
     cfg, event, decoy = case["cfg"], case["event"], case["decoy"]
     base, bsock, _r, _e = run_lifecycle("client", cfg, event, decoy)
-    for stack in STACKS:
+    for stack in _stacks_for(cfg):
         got, sock, reconnected, env = run_lifecycle(stack, cfg, event, decoy)
         for i, ((res, log), (bres, blog)) in enumerate(zip(got, base)):
             desc = "%s vs Client at call %d (%r) after the event %r%s, cfg %r" % (stack, i, LIFE_POST[i], event, " (another %s with other options was built and used in between)" % stack if decoy else "", cfg)
@@ -300,11 +313,11 @@ def check(case):
         base, blog, berr, bsock, _ = run_stack("client", cfg, state, r)
     except Exception as e:  # noqa: BLE001
         raise Violation(["reference-construction", type(e).__name__], "plain Client could not be constructed with %r: %r" % (cfg, e))
-    stacks = list(STACKS)
+    stacks = _stacks_for(cfg)
     if base[0] == "ok":
         stacks.append("retry3")
     for stack in stacks:
-        if r["op"] in ("getitem", "setitem", "delitem") and stack.startswith("hash"):
+        if r["op"] in ("getitem", "setitem", "delitem") and stack.startswith(("hash", "aws")):
             continue
         desc = "%s vs Client: call %r, state %s, cfg %r" % (stack, r, state, cfg)
         try:
@@ -327,7 +340,8 @@ def check(case):
 
 
 def _sock_norm(ev):
-    return [(k, i) for k, i in ev]
+    # (a port learnt from a cluster configuration is text: the same address)
+    return [(k, (i[0], int(i[1])) + tuple(i[2:]) if k == "connect" and isinstance(i, tuple) and len(i) >= 2 else i) for k, i in ev]
 
 
 def _short(x):
@@ -418,6 +432,8 @@ CFGS = [
     {"legacy": "both"}, {"legacy": "serializer"}, {"legacy": "deserializer"}, {"legacy": "deserializer", "key_prefix": b"p:"},
     {"server": "ip-no-port"}, {"server": "name-no-port", "key_prefix": b"p:"}, {"server": "name:port"}, {"server": "Name:port", "default_noreply": False}, {"server": "[v6]:port"},
     {"server": "[v6]", "serde": ("pickle", 2)}, {"server": "unix:path"}, {"server": "path", "default_noreply": False}, {"server": "tuple-text-port"},
+    {"client_class": "folding"}, {"client_class": "namespace", "client_class_how": "classattr", "key_prefix": b"p:"}, {"client_class": "namespace", "default_noreply": False}, {"client_class": "flags", "default_noreply": False},
+    {"client_class": "flags", "client_class_how": "classattr", "serde": ("pickle", 2)}, {"client_class": "tunnel"}, {"client_class": "eager", "client_class_how": "classattr"},
     {"connect_timeout": 1.5, "timeout": 2.5}, {"timeout": 0.5}, {"no_delay": True}, {"keepalive": [2, 3, 4]}, {"tls": True},
     {"key_prefix": "ns/", "default_noreply": False, "encoding": "utf-8", "allow_unicode_keys": True, "serde": ("pickle", 0),
      "connect_timeout": 3, "timeout": 0.5, "no_delay": True, "keepalive": [1, 1, 5], "tls": True},
@@ -445,6 +461,8 @@ def random_strategy(tier):
         "keepalive": st.sampled_from([None, [1, 1, 5], [7, 2, 3]]),
         "tls": st.booleans(),
         "server": st.sampled_from([None, None] + sorted(SERVER_SPELLINGS)),
+        "client_class": st.sampled_from([None, None, None, "folding", "namespace", "flags", "tunnel", "eager"]),
+        "client_class_how": st.sampled_from(["assign", "classattr"]),
     })
     key = st.sampled_from(["k", b"k", "j", "zz", "ké", "bad key", b"k\r\n", "k" * 250, "€uro", "", b"caf\xe9", b"\xff\xfe", b"\x80", "caf\xe9".encode("utf-8")])
     value = st.sampled_from(["v", b"v", "é", "€", 5, -3, b"\r\nEND\r\n", "", b"x" * 5000])
